@@ -107,6 +107,7 @@ fn token_faults(text: &str, toks: &[(usize, usize, TK)], i: usize) -> Vec<(Strin
 
 fn read_case(io: &Io, bytes: &[u8], label: &str, probes: &mut Probes) -> Option<Violation> {
     tick();
+    note_case("text_hex", bytes);
     let fs = SimFs::new(io);
     let _g = fs.install();
     fs.put(INP, bytes.to_vec());
@@ -170,7 +171,7 @@ impl Check for C11 {
         }
     }
     fn hang_secs(&self) -> u64 {
-        20
+        10
     }
     fn shrinkable(&self) -> bool {
         false
